@@ -474,6 +474,33 @@ func genFacts() {
 	rfin := rf.fn("RefreshFunc.Final")
 	rdIf := rf.ifWithCond(rfin, "!vt.S3Options.ReadOnly && vt.Tree.Root.IsDirty()")
 	f["refreshRefusesDirty"] = leanBool(rdIf != nil && endsIn(rdIf.Body, "return") && rdIf.Pos() < rf.firstCallPos(rfin, "s3db.OpenKV"))
+	// ---- the bug-hunt repairs (F57, F58, F59, F61, F62, F71, F75, F77)
+	{
+		bit := vt.text(vt.fn("VirtualTable.BestIndex").Body)
+		f["bestIndexSkipsOtherCollations"] = leanBool(strings.Contains(bit, "op := mapOp(c.Op, c.Usable) if op != s3db.OpIgnore && !strings.EqualFold(input.Collation(i), \"BINARY\") { op = s3db.OpIgnore } indexIn[i] = s3db.IndexInput{"))
+		f["beginAsksTableFirst"] = leanBool(
+			vt.text(vt.fn("VirtualTable.Begin").Body) == "{ err := c.common.Begin(c.module.sc.ctx) if err != nil { return toSqlite(err) } if c.module.sc.writeTime.IsZero() { c.module.sc.writeTime = time.Now() c.module.sc.txFixedWriteTime = true c.module.sc.ResetContext() } return nil }" &&
+				vt.text(vt.fn("VirtualTable.Sync").Body) == "{ if c.common.S3Options.ReadOnly { return toSqlite(c.common.Rollback()) } return toSqlite(c.common.Commit(c.module.sc.ctx)) }")
+		fxIf := rf.ifWithCond(rfin, "h.sc.txFixedWriteTime")
+		f["refreshRefusedAfterWrite"] = leanBool(fxIf != nil && endsIn(fxIf.Body, "return") && strings.Contains(rf.text(fxIf.Body), "ctx.ResultError(") && fxIf.Pos() < rf.firstCallPos(rfin, "s3db.OpenKV"))
+		ut := vc.text(vc.fn("VirtualTable.Update").Body)
+		f["updateRefusesKeyChange"] = leanBool(
+			strings.Contains(ut, "if nk, assigned := values[c.KeyCol]; assigned && !c.usesRowID && !sameKeyValue(nk, key) { return errors.New(") &&
+				strings.Index(ut, "!sameKeyValue(nk, key)") < strings.Index(ut, "getRow(ctx, c, NewKey(key), &old, &ot)") &&
+				vc.text(vc.fn("sameKeyValue").Body) == "{ x, y := NewKey(a).SQLiteValue, NewKey(b).SQLiteValue return x.Type == y.Type && x.Int == y.Int && math.Float64bits(x.Real) == math.Float64bits(y.Real) && x.Text == y.Text && bytes.Equal(x.Blob, y.Blob) }")
+		nw := vc.fn("New")
+		nwt := vc.text(nw.Body)
+		f["optionValuesAsWritten"] = leanBool(
+			strings.Contains(nwt, "s := strings.SplitN(args[i], \"=\", 2) if len(s) > 1 { s[1] = strings.TrimSpace(s[1]) }") &&
+				strings.Count(nwt, "strconv.ParseInt(s[1], 10, 32)") == 2 && !strings.Contains(nwt, "ParseInt(s[1], 0,"))
+		cst := vc.text(vc.fn("convertSchema").Body)
+		f["declarableCheckedBeforeOpen"] = leanBool(
+			strings.Contains(cst, "if !utf8.ValidString(name) {") &&
+				strings.Contains(cst, "if _, ok := folded[\"_rowid_\"]; ok && len(schema.PrimaryKey) == 0 { return fmt.Errorf(") &&
+				vc.firstCallPos(nw, "convertSchema") != 0 && vc.firstCallPos(nw, "convertSchema") < vc.firstCallPos(nw, "OpenKV"))
+		f["connFilterResetsEof"] = leanBool(strings.Contains(cu.text(cu.fn("ConnCursor.Filter").Body), "vc.eof = false"))
+		f["emptyVersionForgotten"] = leanBool(strings.Contains(kvs.text(kvs.fn("DeleteHistoricVersions").Body), "s.crdt.Source = nil s.crdt.MergeSources = nil s.mergedRoots = map[string][]byte{}"))
+	}
 	rt := kvs.fn("DB.RemoveTombstones")
 	f["tombCutoff"] = leanStr("unknown")
 	if i := kvs.ifContaining(rt, "ts"); i != nil {
